@@ -2,6 +2,7 @@ import BctVerif.Lemmas.DistFloydModel
 import BctVerif.Lemmas.DistDijkstraModel
 import BctVerif.Lemmas.DistCert
 import BctVerif.Lemmas.DistMean
+import BctVerif.Lemmas.DistMeanSpec
 import BctVerif.Lemmas.DistBinTerm
 import BctVerif.Lemmas.DistReachdist
 import BctVerif.Lemmas.DistBfsModel
@@ -81,26 +82,52 @@ theorem floyd_hops_unreachable (tr : Transform) (A : AMat Rat n) (hA : NonNeg A)
 
 /-! ## distance_wei (Dijkstra) -/
 
-/-- **`dijkstra_isDist`**: whenever the model of `distance_wei` returns (it always does: `dijkstra_total`), `D` is the minimum walk length for every ordered pair and `∞` iff unreachable -/
-theorem dijkstra_isDist (A : AMat Rat n) (hA : NonNeg A) (D : AMat Ext n) (B : AMat ℕ n)
-    (h : dijkstra (lenMat .none A) = some (D, B)) : IsDist (lenFun (lenMat .none A)) (lenFun D) :=
-  (dijkstra_spec _ (lenMat_nonneg .none A hA) D B h).1
+/-- **`dijkstra_isDist`**: whenever the model of `distance_wei` returns (it always does: `dijkstra_total`), `D` is the
+minimum walk length for every ordered pair and `∞` iff unreachable.  `tr = .none` is `distance_wei(L)` itself,
+`tr = .inv` is the call `distance_inv_wei(invert(W))` inside `efficiency_wei`. -/
+theorem dijkstra_isDist (tr : Transform) (A : AMat Rat n) (hA : NonNeg A) (D : AMat Ext n) (B : AMat ℕ n)
+    (h : dijkstra (lenMat tr A) = some (D, B)) : IsDist (lenFun (lenMat tr A)) (lenFun D) :=
+  (dijkstra_spec _ (lenMat_nonneg tr A hA) D B h).1
 
 /-- `distance_wei` puts 0 on the diagonal -/
-theorem dijkstra_diag (A : AMat Rat n) (hA : NonNeg A) (D : AMat Ext n) (B : AMat ℕ n)
-    (h : dijkstra (lenMat .none A) = some (D, B)) (i : Fin n) : lenFun D i i = 0 :=
-  (dijkstra_spec _ (lenMat_nonneg .none A hA) D B h).2.1 i
+theorem dijkstra_diag (tr : Transform) (A : AMat Rat n) (hA : NonNeg A) (D : AMat Ext n) (B : AMat ℕ n)
+    (h : dijkstra (lenMat tr A) = some (D, B)) (i : Fin n) : lenFun D i i = 0 :=
+  (dijkstra_spec _ (lenMat_nonneg tr A hA) D B h).2.1 i
 
 /-- **`dijkstra_B`**: `B i j` is the number of edges of a walk from `i` to `j` of length `D i j` -/
-theorem dijkstra_B (A : AMat Rat n) (hA : NonNeg A) (D : AMat Ext n) (B : AMat ℕ n)
-    (h : dijkstra (lenMat .none A) = some (D, B)) (i j : Fin n) (hfin : lenFun D i j < ⊤) :
-    ∃ p, walkEnd i p = j ∧ walkLen (lenFun (lenMat .none A)) i p = lenFun D i j ∧ p.length = B.get i j :=
-  (dijkstra_spec _ (lenMat_nonneg .none A hA) D B h).2.2 i j hfin
+theorem dijkstra_B (tr : Transform) (A : AMat Rat n) (hA : NonNeg A) (D : AMat Ext n) (B : AMat ℕ n)
+    (h : dijkstra (lenMat tr A) = some (D, B)) (i j : Fin n) (hfin : lenFun D i j < ⊤) :
+    ∃ p, walkEnd i p = j ∧ walkLen (lenFun (lenMat tr A)) i p = lenFun D i j ∧ p.length = B.get i j :=
+  (dijkstra_spec _ (lenMat_nonneg tr A hA) D B h).2.2 i j hfin
+
+/-! ## any exact length transform (the shape of `'log'`)
+
+The Floyd and Dijkstra theorems need nothing about how the length matrix was obtained except `0 ≤ L`: they hold for
+*every* matrix `L` of non-negative exact lengths (`∞` = no connection), in particular for every order-reversing weight →
+length transform with exact values, zero lengths included (`'log'` maps a weight 1 to length 0).  The `'log'` transform
+itself takes values `-ln w` that are irrational, and the code evaluates it in floats: that instance is outside these
+theorems (and outside the model; it is checked against the oracle only). -/
+
+theorem floyd_isDist_len (L : AMat Ext n) (hL : ∀ i j, 0 ≤ lenFun L i j) : IsDist (lenFun L) (lenFun (floyd L).D) :=
+  (floyd_spec L hL).isDist
+
+theorem floyd_hops_len (L : AMat Ext n) (hL : ∀ i j, 0 ≤ lenFun L i j) (i j : Fin n) (hij : i ≠ j)
+    (hfin : lenFun (floyd L).D i j < ⊤) :
+    ∃ p, walkEnd i p = j ∧ walkLen (lenFun L) i p = lenFun (floyd L).D i j ∧ p.length = (floyd L).hops.get i j := by
+  have sp := floyd_spec L hL
+  obtain ⟨h1, h2⟩ := walkP_valid sp ((floyd L).hops.get i j) i j hij hfin rfl
+  exact ⟨_, h1, h2, walkP_length _ _ _ _⟩
+
+theorem dijkstra_isDist_len (L : AMat Ext n) (hL : ∀ i j, 0 ≤ lenFun L i j) (D : AMat Ext n) (B : AMat ℕ n)
+    (h : dijkstra L = some (D, B)) :
+    IsDist (lenFun L) (lenFun D) ∧ (∀ i, lenFun D i i = 0) ∧
+      ∀ i j, lenFun D i j < ⊤ → ∃ p, walkEnd i p = j ∧ walkLen (lenFun L) i p = lenFun D i j ∧ p.length = B.get i j :=
+  dijkstra_spec L hL D B h
 
 /-- the two weighted routines agree (matrix equality of the model outputs) -/
 theorem floyd_eq_dijkstra (A : AMat Rat n) (hA : NonNeg A) (D : AMat Ext n) (B : AMat ℕ n)
     (h : dijkstra (lenMat .none A) = some (D, B)) : D = (floyd (lenMat .none A)).D := by
-  have e := Dist.isDist_unique _ _ _ (dijkstra_isDist A hA D B h) (floyd_isDist .none A hA)
+  have e := Dist.isDist_unique _ _ _ (dijkstra_isDist .none A hA D B h) (floyd_isDist .none A hA)
   apply AMat.ext_get
   intro i j
   exact Ext.toLen_injective (congrFun (congrFun e i) j)
@@ -330,81 +357,151 @@ theorem certified_agrees_with_distBin (A : AMat Rat n) (D D' : AMat Ext n) (h : 
 
 /-! ## charpath, efficiency_bin, efficiency_wei, rout_efficiency: means over the ordered pairs of distinct nodes
 
-`offDiag n` is the list of all ordered pairs of distinct nodes, each exactly once (`mem_offDiag`, `offDiag_nodup`),
-and has `n*n - n` elements (`offDiag_length`). -/
+`offDiag n` is the list of all ordered pairs of distinct nodes, each exactly once, `n*n - n` of them (`offDiag_spec`).
+`meanSpec D` / `meanInvSpec D` (`Lemmas/DistMeanSpec.lean`) are the plain rational means of `D i j` / of `1/D i j`
+(`1/∞ = 0`) over that list.  The `_spec` theorems below are end-to-end: they state the value returned by the executable
+model of each routine in terms of a matrix `D` that is *proved* to be the distance matrix (`IsDist`), with no hypothesis
+left other than the property's domain (`2 ≤ n` so that there is a pair, existing connections positive). -/
 
 theorem offDiag_spec : (∀ p : Fin n × Fin n, p ∈ offDiag n ↔ p.1 ≠ p.2) ∧ (offDiag n).Nodup ∧ (offDiag n).length = n * n - n :=
   ⟨mem_offDiag, offDiag_nodup, offDiag_length⟩
 
-/-- `meanInvOff D` (the quantity returned by the three global efficiencies) is the mean of `1/D i j` (with `1/∞ = 0`)
-over the ordered pairs of distinct nodes, provided no such distance is 0 -/
-theorem meanInvOff_eq (D : AMat Ext n) (hn : 2 ≤ n) (hpos : ∀ p ∈ offDiag n, D.get p.1 p.2 ≠ .fin 0) :
-    meanInvOff D = some (.fin (((offDiag n).map fun p => finVal (D.get p.1 p.2).inv).sum / ((offDiag n).length : ℚ))) := by
-  unfold meanInvOff
-  rw [if_neg (by omega)]
-  have hfin : ∀ x ∈ (offDiag n).map (fun p => (D.get p.1 p.2).inv), x.isFin = true := by
-    intro x hx
-    obtain ⟨p, hp, rfl⟩ := List.mem_map.mp hx
-    have := hpos p hp
-    cases hd : D.get p.1 p.2 with
-    | inf => simp [Ext.inv, Ext.isFin]
-    | fin q =>
-      have hq : q ≠ 0 := by intro e; rw [hd, e] at this; exact this rfl
-      simp [Ext.inv, hq, Ext.isFin]
-  rw [sumExt_fin _ hfin, List.map_map, offDiag_length]
-  rfl
+theorem lenMat_pos (tr : Transform) (A : AMat Rat n) (h : NonNeg A) : ∀ i j, 0 < lenFun (lenMat tr A) i j := by
+  intro i j
+  simp only [lenFun, lenMat, AMat.get_ofFn, lenOf]
+  have h0 := h i j
+  split_ifs with hz
+  · exact WithTop.coe_lt_top 0
+  · have hpos : (0 : ℚ) < A.get i j := lt_of_le_of_ne h0 (Ne.symm hz)
+    cases tr
+    · simp only [Ext.toLen_fin]; exact_mod_cast hpos
+    · simp only [Ext.toLen_fin]
+      have h2 : (0 : ℚ) < 1 / A.get i j := by positivity
+      exact_mod_cast h2
 
-/-- `charpath(D)` (defaults): `lambda` is the mean of the distances over the ordered pairs of distinct nodes when all of
-them are finite -/
-theorem charpath_lambda_eq (D : AMat Ext n) (hn : 2 ≤ n) (hfin : ∀ p ∈ offDiag n, (D.get p.1 p.2).isFin = true) :
-    (charpath D false true).1 =
-      some (.fin (((offDiag n).map fun p => finVal (D.get p.1 p.2)).sum / ((offDiag n).length : ℚ))) := by
-  have hne : (offDiag n).isEmpty = false := by
-    have := offDiag_length (n := n)
-    cases h : offDiag n with
-    | nil => rw [h] at this; simp at this; have : n * n ≥ 2 * n := Nat.mul_le_mul_right n hn; omega
-    | cons _ _ => rfl
-  simp only [charpath, Bool.false_eq_true, if_false, Bool.true_or, List.filter_true]
-  unfold meanExt
-  have hfin' : ∀ x ∈ (offDiag n).map (fun p => D.get p.1 p.2), x.isFin = true := by
-    intro x hx; obtain ⟨p, hp, rfl⟩ := List.mem_map.mp hx; exact hfin p hp
-  rw [sumExt_fin _ hfin', List.map_map]
-  simp [hne]
-  rfl
+theorem hopLen_pos (A : AMat Rat n) : ∀ i j, 0 < hopLen A i j := by
+  intro i j
+  simp only [hopLen]
+  split_ifs
+  · exact WithTop.coe_lt_top 0
+  · exact zero_lt_one
 
-/-- … and `lambda = ∞` as soon as one ordered pair is unreachable (`include_infinite=True`) is not needed for the
-property; `efficiency` is the mean inverse distance -/
-theorem charpath_efficiency_eq (D : AMat Ext n) (hn : 2 ≤ n) (hpos : ∀ p ∈ offDiag n, D.get p.1 p.2 ≠ .fin 0) :
-    (charpath D false true).2 =
-      some (.fin (((offDiag n).map fun p => finVal (D.get p.1 p.2).inv).sum / ((offDiag n).length : ℚ))) := by
-  have hne : (offDiag n).isEmpty = false := by
-    have := offDiag_length (n := n)
-    cases h : offDiag n with
-    | nil => rw [h] at this; simp at this; have : n * n ≥ 2 * n := Nat.mul_le_mul_right n hn; omega
-    | cons _ _ => rfl
-  simp only [charpath, Bool.false_eq_true, if_false, Bool.true_or, List.filter_true]
-  unfold meanExt
-  have hfin : ∀ x ∈ ((offDiag n).map (fun p => D.get p.1 p.2)).map Ext.inv, x.isFin = true := by
-    intro x hx
-    rw [List.map_map] at hx
-    obtain ⟨p, hp, rfl⟩ := List.mem_map.mp hx
-    have := hpos p hp
-    simp only [Function.comp]
-    cases hd : D.get p.1 p.2 with
-    | inf => simp [Ext.inv, Ext.isFin]
-    | fin q =>
-      have hq : q ≠ 0 := by intro e; rw [hd, e] at this; exact this rfl
-      simp [Ext.inv, hq, Ext.isFin]
-  rw [sumExt_fin _ hfin]
-  simp [hne, List.map_map]
-  rfl
+/-- a distance matrix for positive connection lengths has no zero entry between distinct nodes -/
+theorem offDiag_ne_zero {L : LMat n} (D : AMat Ext n) (hD : IsDist L (lenFun D)) (hL : ∀ i j, 0 < L i j) :
+    ∀ p ∈ offDiag n, D.get p.1 p.2 ≠ .fin 0 := by
+  intro p hp
+  exact entry_ne_zero_of_pos D p.1 p.2 (isDist_pos_offdiag hD hL p.1 p.2 ((mem_offDiag p).mp hp))
 
-/-- the three global efficiencies are `meanInvOff` of the distance matrix of the corresponding routine -/
-theorem efficiencyBin_def (A : AMat Rat n) : efficiencyBin A = (distBin A).map meanInvOff := rfl
-theorem efficiencyWei_def (W : AMat Rat n) :
-    efficiencyWei W = (dijkstra (lenMat .inv W)).map fun r => meanInvOff r.1 := rfl
-theorem routEfficiency_def (tr : Transform) (A : AMat Rat n) :
-    (routEfficiency tr A).1 = meanInvOff (floyd (lenMat tr A)).D := rfl
+/-- **`charpath_spec`** (`charpath(D)` with its defaults `include_diagonal=False, include_infinite=True`), for any matrix
+`D` that is the distance matrix of positive connection lengths `L` (e.g. the output of any of the five routines):
+`efficiency` is the mean of `1/D i j` over the ordered pairs of distinct nodes (`1/∞ = 0`); `lambda` is the mean of
+`D i j` over those pairs when all are finite, and `∞` as soon as one pair is unreachable (NumPy's mean of an array
+containing `inf`) -/
+theorem charpath_spec {L : LMat n} (hL : ∀ i j, 0 < L i j) (D : AMat Ext n) (hD : IsDist L (lenFun D)) (hn : 2 ≤ n) :
+    (charpath D false true).2 = some (.fin (meanInvSpec D)) ∧
+    ((∀ p ∈ offDiag n, (D.get p.1 p.2).isFin = true) → (charpath D false true).1 = some (.fin (meanSpec D))) ∧
+    ((∃ p ∈ offDiag n, D.get p.1 p.2 = .inf) → (charpath D false true).1 = some .inf) := by
+  have hne := offDiag_ne_nil hn
+  have hpos := offDiag_ne_zero D hD hL
+  have hvals : ((if false = true then cells n else offDiag n).map fun p => D.get p.1 p.2).filter
+      (fun x => true || x.isFin) = (offDiag n).map fun p => D.get p.1 p.2 := by simp
+  have hmapne : ((offDiag n).map fun p => D.get p.1 p.2) ≠ [] := by simpa using hne
+  have hlen : (((offDiag n).map fun p => D.get p.1 p.2).length : ℚ) = ((n * n - n : ℕ) : ℚ) := by
+    rw [List.length_map, offDiag_length]
+  refine ⟨?_, ?_, ?_⟩
+  · simp only [charpath]
+    rw [hvals]
+    have hfin : ∀ x ∈ ((offDiag n).map fun p => D.get p.1 p.2).map Ext.inv, x.isFin = true := by
+      intro x hx
+      rw [List.map_map] at hx
+      obtain ⟨p, hp, rfl⟩ := List.mem_map.mp hx
+      exact inv_isFin_of_ne_zero _ (hpos p hp)
+    rw [meanExt_fin _ (by simpa using hne) hfin, List.length_map, hlen, List.map_map, List.map_map]
+    rfl
+  · intro hall
+    simp only [charpath]
+    rw [hvals]
+    have hfin : ∀ x ∈ (offDiag n).map (fun p => D.get p.1 p.2), x.isFin = true := by
+      intro x hx; obtain ⟨p, hp, rfl⟩ := List.mem_map.mp hx; exact hall p hp
+    rw [meanExt_fin _ hmapne hfin, hlen, List.map_map]
+    rfl
+  · rintro ⟨p, hp, hinf⟩
+    simp only [charpath]
+    rw [hvals]
+    apply meanExt_inf
+    rw [← hinf]
+    exact List.mem_map.mpr ⟨p, hp, rfl⟩
+
+/-- `charpath(D, include_infinite=False)`: unreachable pairs are left out of both means (`none` = NaN when no pair is
+reachable) -/
+theorem charpath_spec_finite_only {L : LMat n} (hL : ∀ i j, 0 < L i j) (D : AMat Ext n) (hD : IsDist L (lenFun D)) :
+    let vals := ((offDiag n).map fun p => D.get p.1 p.2).filter fun x => x.isFin
+    (vals = [] → charpath D false false = (none, none)) ∧
+    (vals ≠ [] → charpath D false false =
+      (some (.fin ((vals.map finVal).sum / (vals.length : ℚ))), some (.fin ((vals.map invQ).sum / (vals.length : ℚ))))) := by
+  intro vals
+  have hpos := offDiag_ne_zero D hD hL
+  have hvals : ((if false = true then cells n else offDiag n).map fun p => D.get p.1 p.2).filter
+      (fun x => false || x.isFin) = vals := by simp [vals]
+  constructor
+  · intro hv
+    simp only [charpath]
+    rw [hvals, hv]
+    simp [meanExt]
+  · intro hv
+    simp only [charpath]
+    rw [hvals]
+    have hfin : ∀ x ∈ vals, x.isFin = true := fun x hx => by simpa using (List.mem_filter.mp hx).2
+    have hfin2 : ∀ x ∈ vals.map Ext.inv, x.isFin = true := by
+      intro x hx
+      obtain ⟨y, hy, rfl⟩ := List.mem_map.mp hx
+      obtain ⟨p, hp, rfl⟩ := List.mem_map.mp (List.mem_filter.mp hy).1
+      exact inv_isFin_of_ne_zero _ (hpos p hp)
+    rw [meanExt_fin vals hv hfin, meanExt_fin _ (by simpa using hv) hfin2, List.length_map, List.map_map]
+    rfl
+
+/-- **`efficiency_bin_spec`** (global): the returned value is the mean inverse hop distance over the ordered pairs of
+distinct nodes, for every input with at least two nodes -/
+theorem efficiency_bin_spec (A : AMat Rat n) (hn : 2 ≤ n) :
+    ∃ D, IsDist (hopLen A) (lenFun D) ∧ efficiencyBin A = some (some (.fin (meanInvSpec D))) := by
+  obtain ⟨D, hD⟩ := distBin_total A
+  have hd := distBin_isDist A D hD
+  refine ⟨D, hd, ?_⟩
+  unfold efficiencyBin
+  rw [hD, Option.map_some, meanInvOff_spec D hn (offDiag_ne_zero D hd (hopLen_pos A))]
+
+/-- **`efficiency_wei_spec`** (global): for a weight matrix with non-negative entries, the returned value is the mean
+inverse of the shortest-path lengths for the connection lengths `1/w` -/
+theorem efficiency_wei_spec (W : AMat Rat n) (hW : NonNeg W) (hn : 2 ≤ n) :
+    ∃ D, IsDist (lenFun (lenMat .inv W)) (lenFun D) ∧ efficiencyWei W = some (some (.fin (meanInvSpec D))) := by
+  obtain ⟨D, B, hD⟩ := dijkstra_total (lenMat .inv W)
+  have hd := dijkstra_isDist .inv W hW D B hD
+  refine ⟨D, hd, ?_⟩
+  unfold efficiencyWei
+  rw [hD, Option.map_some, meanInvOff_spec D hn (offDiag_ne_zero D hd (lenMat_pos .inv W hW))]
+
+/-- **`rout_efficiency_spec`** (global part, transforms None / 'inv'): `GErout` is the mean inverse of the shortest-path
+lengths, `Erout` their cell-wise inverse with zero diagonal -/
+theorem rout_efficiency_spec (tr : Transform) (A : AMat Rat n) (hA : NonNeg A) (hn : 2 ≤ n) :
+    IsDist (lenFun (lenMat tr A)) (lenFun (floyd (lenMat tr A)).D) ∧
+      (routEfficiency tr A).1 = some (.fin (meanInvSpec (floyd (lenMat tr A)).D)) ∧
+      ∀ i j, (routEfficiency tr A).2.get i j = if i = j then .fin 0 else ((floyd (lenMat tr A)).D.get i j).inv := by
+  have hd := floyd_isDist tr A hA
+  refine ⟨hd, ?_, ?_⟩
+  · unfold routEfficiency
+    exact meanInvOff_spec _ hn (offDiag_ne_zero _ hd (lenMat_pos tr A hA))
+  · intro i j
+    simp [routEfficiency]
+
+/-- `charpath` applied to the output of `distance_wei_floyd` (the other four routines likewise, through their `IsDist`
+theorems): mean inverse and mean of the true shortest-path lengths -/
+theorem charpath_floyd_spec (tr : Transform) (A : AMat Rat n) (hA : NonNeg A) (hn : 2 ≤ n) :
+    (charpath (floyd (lenMat tr A)).D false true).2 = some (.fin (meanInvSpec (floyd (lenMat tr A)).D)) ∧
+    ((∀ p ∈ offDiag n, ((floyd (lenMat tr A)).D.get p.1 p.2).isFin = true) →
+      (charpath (floyd (lenMat tr A)).D false true).1 = some (.fin (meanSpec (floyd (lenMat tr A)).D))) ∧
+    ((∃ p ∈ offDiag n, (floyd (lenMat tr A)).D.get p.1 p.2 = .inf) →
+      (charpath (floyd (lenMat tr A)).D false true).1 = some .inf) :=
+  charpath_spec (lenMat_pos tr A hA) _ (floyd_isDist tr A hA) hn
 
 /-! ## non-vacuity: a 3-node graph 0→1→2 with lengths 1,1 and a direct connection 0→2 of length 3 -/
 
@@ -429,5 +526,9 @@ def cyc3 : AMat Rat 3 := AMat.ofFn fun i j => if (i.val + 1) % 3 = j.val then 1 
 example : (distBin cyc3).map (fun D => (charpath D false true, meanInvOff D)) =
     some ((some (.fin (3 / 2)), some (.fin (3 / 4))), some (.fin (3 / 4))) := by decide +kernel
 example : efficiencyBin cyc3 = some (some (.fin (3 / 4))) := by decide +kernel
+example : (distBin cyc3).map (fun D => (meanInvSpec D, meanSpec D)) = some (3 / 4, 3 / 2) := by decide +kernel
+example : (distBin ex3).map (fun D => (charpath D false true).1) = some (some .inf) := by decide +kernel
+example : NonNeg cyc3 ∧ efficiencyWei cyc3 = some (some (.fin (3 / 4))) ∧ (routEfficiency .inv cyc3).1 = some (.fin (3 / 4)) := by
+  decide +kernel
 
 end Bct.C03
